@@ -178,6 +178,13 @@ func (r *Run) enterBlock(st *State, fr *Frame, to *ssa.BasicBlock) bool {
 				e.obligationClause(st, fr, fmt.Sprintf("%s/loop:%s/preserve:%s", e.fnName[oc.fr.Fn], oc.cl.Words[0], oc.cl.Label()), oc.cl, r.outerVars(st, oc.fr))
 			}
 			r.checkVariants(st, fr, li)
+			if !r.ownClausesOff(st, fr) {
+				// `loop N step label : cond` — holds at every back edge (one full iteration has run); athead(N, x) is
+				// the value of local x when this iteration started
+				for _, c := range r.stepClauses(fr.Fn, li.Ordinal) {
+					e.obligationClause(st, fr, fmt.Sprintf("%s/loop%d/step:%s", fname, li.Ordinal, c.Label()), c, nil)
+				}
+			}
 			if len(r.lockIfClauses(fr.Fn, li.Ordinal)) == 0 {
 				r.checkLoopLocks(st, fr, li, "preserve")
 			}
@@ -205,6 +212,14 @@ func (r *Run) enterBlock(st *State, fr *Frame, to *ssa.BasicBlock) bool {
 			st.assume(e.evalClause(st, fr, oc.cl, r.outerVars(st, oc.fr)))
 		}
 		r.recordVariants(st, fr, li)
+		{
+			// snapshot of the locals at the loop head (start of this iteration), for athead(N, x) in step clauses
+			snap := map[string]Val{}
+			for name, c := range fr.Cells {
+				snap[name] = st.Cells[c]
+			}
+			st.Ghost[fmt.Sprintf("loophead:%s:%d", fname, li.Ordinal)] = snap
+		}
 		fr.Prev = from
 		fr.Block = to
 		fr.PC = 0
@@ -228,6 +243,20 @@ func (r *Run) variantClauses(fn *ssa.Function, ord int) []*Clause {
 	var out []*Clause
 	for _, c := range b.All("loop") {
 		if len(c.Words) >= 2 && c.Words[0] == fmt.Sprintf("%d", ord) && c.Words[1] == "variant" {
+			out = append(out, c)
+		}
+	}
+	return out
+}
+
+func (r *Run) stepClauses(fn *ssa.Function, ord int) []*Clause {
+	b := r.e.cs.Funcs[r.e.fnName[fn]]
+	if b == nil {
+		return nil
+	}
+	var out []*Clause
+	for _, c := range b.All("loop") {
+		if len(c.Words) >= 2 && c.Words[0] == fmt.Sprintf("%d", ord) && c.Words[1] == "step" {
 			out = append(out, c)
 		}
 	}
@@ -1606,6 +1635,7 @@ func (r *Run) load(st *State, fr *Frame, av Val, t types.Type, in ssa.Instructio
 			if isOpaqueStruct(t) {
 				return e.regionRead(st, "val_"+e.structKey(t), []Sort{SRef}, e.sortOf(t), a)
 			}
+			r.structAccessCheck(st, fr, t, a, false, in)
 			return e.readStruct(st, t, a)
 		}
 		return e.readLoc(st, "ptr_"+sanitize(typeKey(t)), t, a)
@@ -1675,6 +1705,7 @@ func (r *Run) store(st *State, fr *Frame, av Val, v Val, vt types.Type, in ssa.I
 		}
 	case T:
 		if _, ok := vt.Underlying().(*types.Struct); ok && !isOpaqueStruct(vt) {
+			r.structAccessCheck(st, fr, vt, a, true, in)
 			e.writeStruct(st, vt, a, v)
 			return
 		}
@@ -1682,6 +1713,25 @@ func (r *Run) store(st *State, fr *Frame, av Val, v Val, vt types.Type, in ssa.I
 		return
 	}
 	e.fail("store to %T", av)
+}
+
+// structAccessCheck: a whole-struct load or store through a pointer (*p, *p = v) accesses every field of the object:
+// the discipline declared for each field (guard, frozen, ...) applies as for a field access.
+func (r *Run) structAccessCheck(st *State, fr *Frame, t types.Type, ref T, write bool, in ssa.Instruction) {
+	e := r.e
+	s, ok := t.Underlying().(*types.Struct)
+	if !ok || in == nil {
+		return
+	}
+	key := e.structKey(t)
+	if e.cs.Types[key] == nil {
+		return
+	}
+	owner, _ := t.(*types.Named)
+	for i := 0; i < s.NumFields(); i++ {
+		f := s.Field(i)
+		r.accessCheck(st, fr, &Addr{Kind: AField, Region: fieldRegionName(key, f.Name()), Ref: ref, FieldT: f.Type(), FName: f.Name(), Owner: owner}, write, in)
+	}
 }
 
 func (r *Run) noteEscape(st *State, v Val) {
